@@ -234,7 +234,8 @@ func errClass(err error) string {
 var opNames = []string{"ExecutionAllowed/hook-adds-key", "ExecutionAllowed/hook-fresh-args", "ExecutionAllowed", "ExecutionAllowedWithArgsHook", "ExecutionAllowed/alt-args", "ExecutionAllowed/alt-args", "ExecutionAllowed/incomplete-loader", "dlg.Policy.Match/alt-data", "inv.ToSealed", "inv.ToDagCbor", "inv.ToDagJson", "inv.ToSealedWriter",
 	"inv.accessors", "args.Iter", "args.String", "args.ToIPLD", "args.Equals", "args.GetNode", "args.WriteableClone",
 	"meta.Iter", "meta.String", "meta.Get", "meta.GetEncrypted", "meta.GetEncrypted", "meta.GetBytes", "dlg.Meta.GetEncrypted", "inv.IsValid",
-	"dlg.ToSealed", "dlg.ToDagJson", "dlg.accessors", "dlg.Policy.String", "dlg.Policy.Match", "dlg.Meta.String", "dlg.IsValid", "dlg.IsValidAt/what-if", "dlg.IsValidAt/what-if", "inv.IsValidAt/what-if", "args.Equals/other-order", "args.Equals/other-order", "meta.Equals/other-order"}
+	"dlg.ToSealed", "dlg.ToDagJson", "dlg.accessors", "dlg.Policy.String", "dlg.Policy.Match", "dlg.Meta.String", "dlg.IsValid", "dlg.IsValidAt/what-if", "dlg.IsValidAt/what-if", "inv.IsValidAt/what-if", "args.Equals/other-order", "args.Equals/other-order", "meta.Equals/other-order",
+	"inv.ToSealed/caller-overwrites-result", "inv.ToDagCbor/caller-overwrites-result", "inv.ToDagJson/caller-overwrites-result", "dlg.ToSealed/caller-overwrites-result", "dlg.ToDagCbor/caller-overwrites-result", "dlg.ToDagJson/caller-overwrites-result"}
 
 // whatIfInstants: instants a caller may ask about that are NOT now (planning, auditing, pruning): the answers are
 // facts about the token, asking changes nothing - in particular not what the token answers about other instants
@@ -305,6 +306,20 @@ func (k *keeper) changed() string {
 	return ""
 }
 
+// scribble: the caller uses a buffer it was handed as its own - overwrites every byte and appends into whatever
+// capacity lies behind it.
+func scribble(b []byte) {
+	for i := range b {
+		b[i] ^= 0xa5
+	}
+	if cap(b) > len(b) {
+		tail := b[len(b):cap(b)]
+		for i := range tail {
+			tail[i] = 0xee
+		}
+	}
+}
+
 // apply runs one operation and returns a canonical rendering of its result.
 func (w *world) apply(op string, which int, k *keeper) (res string) {
 	defer func() {
@@ -363,6 +378,23 @@ func (w *world) apply(op string, which int, k *keeper) (res string) {
 		b, c, err := w.inv.ToSealed(invPriv)
 		k.keep(op, b)
 		return fmt.Sprintf("%x %s %v", b, c, err)
+	case "inv.ToSealed/caller-overwrites-result", "inv.ToDagCbor/caller-overwrites-result", "inv.ToDagJson/caller-overwrites-result":
+		// what a sealing call hands back is the caller's: encrypting it in place, re-using it as a scratch buffer or
+		// appending a trailer to it is no operation on the token. The result is rendered first, then overwritten.
+		var b []byte
+		var c cid.Cid
+		var err error
+		switch op {
+		case "inv.ToSealed/caller-overwrites-result":
+			b, c, err = w.inv.ToSealed(invPriv)
+		case "inv.ToDagCbor/caller-overwrites-result":
+			b, err = w.inv.ToDagCbor(invPriv)
+		default:
+			b, err = w.inv.ToDagJson(invPriv)
+		}
+		r := fmt.Sprintf("%x %s %v", b, c, err)
+		scribble(b)
+		return r
 	case "meta.GetEncrypted":
 		var sb strings.Builder
 		for i, e := range w.cs.Inv.EncMeta {
@@ -477,6 +509,21 @@ func (w *world) apply(op string, which int, k *keeper) (res string) {
 		b, c, err := d.ToSealed(priv)
 		k.keep(op, b)
 		return fmt.Sprintf("%x %s %v", b, c, err)
+	case "dlg.ToSealed/caller-overwrites-result", "dlg.ToDagCbor/caller-overwrites-result", "dlg.ToDagJson/caller-overwrites-result":
+		var b []byte
+		var c cid.Cid
+		var err error
+		switch op {
+		case "dlg.ToSealed/caller-overwrites-result":
+			b, c, err = d.ToSealed(priv)
+		case "dlg.ToDagCbor/caller-overwrites-result":
+			b, err = d.ToDagCbor(priv)
+		default:
+			b, err = d.ToDagJson(priv)
+		}
+		r := fmt.Sprintf("%x %s %v", b, c, err)
+		scribble(b)
+		return r
 	case "dlg.Meta.GetEncrypted":
 		var sb strings.Builder
 		for _, e := range dl.EncMeta {
